@@ -213,3 +213,56 @@ func vVerifyWire(alg, hashID uint8, pub, digest, sig []byte) bool {
 	}
 	return false
 }
+
+// refUnbase64: RFC 4648 section 4 decoder (padding required, no white space).
+func refUnbase64(s string) ([]byte, bool) {
+	if len(s)%4 != 0 {
+		return nil, false
+	}
+	val := func(c byte) (byte, bool) {
+		switch {
+		case c >= 'A' && c <= 'Z':
+			return c - 'A', true
+		case c >= 'a' && c <= 'z':
+			return c - 'a' + 26, true
+		case c >= '0' && c <= '9':
+			return c - '0' + 52, true
+		case c == '+':
+			return 62, true
+		case c == '/':
+			return 63, true
+		}
+		return 0, false
+	}
+	var out []byte
+	for i := 0; i < len(s); i += 4 {
+		pad := 0
+		var v [4]byte
+		for j := 0; j < 4; j++ {
+			c := s[i+j]
+			if c == '=' {
+				if i+4 != len(s) || j < 2 {
+					return nil, false
+				}
+				pad++
+				continue
+			}
+			if pad > 0 {
+				return nil, false
+			}
+			x, ok := val(c)
+			if !ok {
+				return nil, false
+			}
+			v[j] = x
+		}
+		out = append(out, v[0]<<2|v[1]>>4)
+		if pad < 2 {
+			out = append(out, v[1]<<4|v[2]>>2)
+		}
+		if pad < 1 {
+			out = append(out, v[2]<<6|v[3])
+		}
+	}
+	return out, true
+}
